@@ -158,6 +158,8 @@ TYPES = {
     'flba': ('FIXED_LEN_BYTE_ARRAY', None, None, 5, None, 'bytes', 0),
     'dec32': ('INT32', 'DECIMAL', None, None, 2, 'decimal', 64),
     'dec64': ('INT64', 'DECIMAL', None, None, 3, 'decimal', 64),
+    'dec_ba': ('BYTE_ARRAY', 'DECIMAL', None, None, 2, 'decimal', 64),            # binary decimal: big-endian two's complement
+    'dec_flba': ('FIXED_LEN_BYTE_ARRAY', 'DECIMAL', None, 5, 2, 'decimal', 64),
 }
 _INT_RANGE = {'int32': (-2**31, 2**31 - 1), 'int64': (-2**63, 2**63 - 1), 'int8': (-128, 127), 'int16': (-2**15, 2**15 - 1),
               'int32c': (-2**31, 2**31 - 1), 'int64c': (-2**63, 2**63 - 1), 'uint8': (0, 255), 'uint16': (0, 65535),
@@ -194,6 +196,13 @@ def gen_value(tag, rnd):
         return ''.join(rnd.choice('ab zé中\U0001F600') for _ in range(rnd.choice([0, 1, 2, 3, 9])))
     if tag == 'json':
         return json.dumps(rnd.choice([{'a': rnd.randrange(99)}, [1, rnd.randrange(9), 'x'], rnd.randrange(99), 'txt', {'n': [1.5, {}]}]))
+    if tag == 'dec_ba':
+        n = rnd.choice([1, 1, 2, 3, 5, 6])
+        v = rnd.choice([0, 1, -1, 255, -256]) if rnd.random() < .3 else rnd.randint(-2 ** (8 * n - 1), 2 ** (8 * n - 1) - 1)
+        v = max(-2 ** (8 * n - 1), min(2 ** (8 * n - 1) - 1, v))
+        return v.to_bytes(n, 'big', signed=True)
+    if tag == 'dec_flba':
+        return rnd.randint(-2 ** 39, 2 ** 39 - 1).to_bytes(5, 'big', signed=True)
     if tag == 'flba':
         v = bytes(rnd.randrange(256) for _ in range(5))
         return v[:4] + b'\x00' if rnd.random() < .1 else v
@@ -225,6 +234,8 @@ def expected_of(tag, v):
         return v / 100
     if tag == 'dec64':
         return v / 1000
+    if tag in ('dec_ba', 'dec_flba'):
+        return int.from_bytes(v, 'big', signed=True) / 100
     return v
 
 
@@ -270,7 +281,7 @@ def build_case(p, seed):
     tag = p['type']
     ptype, conv, logical, tl, scale, kind, width = TYPES[tag]
     spec = W.ColumnSpec('c', ptype, optional=p['optional'], converted=conv, logical=logical, type_length=tl,
-                        scale=scale, precision=(9 if tag == 'dec32' else 18) if scale is not None else None)
+                        scale=scale, precision={'dec32': 9, 'dec_ba': 14, 'dec_flba': 12}.get(tag, 18) if scale is not None else None)
     enc = p['enc']
     dict_pool = None
     diag = {}
